@@ -267,10 +267,18 @@ def oracle_c20(w, ref, res, case):
         name, n = line.rsplit("\t", 1)
         counts[name] = int(n)
     # (ii) reported tuple count == number of tuples the relation holds at the end (= tuples written)
+    confirmed = None
     for rel, lines in res["outputs"].items():
         if rel not in counts:
             f.append(("profile-relation-missing:" + rel, "output relation %s is not reported in the profile" % rel))
         elif counts[rel] != len(lines):
+            if w.origin == "corpus":
+                # corpus programs may hold symbols with embedded newlines, so the number of lines written is not the number of
+                # tuples held: a mismatch counts only if .printsize confirms the size (otherwise it is not judged)
+                if confirmed is None:
+                    confirmed = psim.held_sizes(w, [r_ for r_ in res["outputs"]]) or {}
+                if confirmed.get(rel) != len(lines):
+                    continue
             # own class for the shape recorded in known_findings.json: a relation that is loaded from facts and also has a
             # non-recursive rule (the profile then reports only the tuples produced by the rule)
             cls = "profile-count-input-derived:" if rel in w.meta.get("input_derived_nonrec", []) and counts[rel] < len(lines) else "profile-count:"
